@@ -40,6 +40,10 @@ type harnessSpec struct {
 	// NativeRetries > 1: the native run is not deterministic (Go map iteration order); a counterexample is
 	// confirmed when one of the runs fails the assertion, a witness is validated when one run passes
 	NativeRetries int `json:"native_retries"`
+	// ScheduleDependent: counterexamples of this harness depend on a goroutine interleaving that a native
+	// run cannot be forced into; when the native runs do not reproduce one, it is reported as confirmed by
+	// the interpreter (which executed the real SSA along the recorded schedule), and the line says so
+	ScheduleDependent bool `json:"schedule_dependent"`
 	What         string          `json:"what"`
 }
 
@@ -180,6 +184,10 @@ func cmdCheck(args []string) int {
 						}
 					}
 				}
+				if !confirmed && h.ScheduleDependent && scheduleInTape(v) {
+					confirmed = true
+					how = "interpreter only: the real SSA was executed along the recorded goroutine schedule (decision prefix in the replay file); native runs with real goroutines did not hit this interleaving"
+				}
 				if !confirmed {
 					fmt.Printf("    unconfirmed counterexample for %s: %s\n", v.Assert, how)
 					continue
@@ -245,6 +253,15 @@ func cmdCheck(args []string) int {
 	}
 	fmt.Printf("OK property=%s tier=%s harnesses=%d wall=%.1fs\n", id, *tier, len(sums), wall.Seconds())
 	return 0
+}
+
+func scheduleInTape(v interp.Violation) bool {
+	for _, e := range v.Tape {
+		if e.Name == "schedule" {
+			return true
+		}
+	}
+	return false
 }
 
 type violRec struct {
